@@ -152,18 +152,20 @@ def parseCertClass (cls : String) (bs : Bytes) : Except PErr (CertKey × Nat) :=
       let (principals, b1) ← parseVecItems principalsParam parseAsciiString
         (fun s => (composeAsciiString s).map (·.length)) (bs.drop q)
       let (va, b2) ← parseTimestamp .network false 8 (bs.drop (q + b1))
-      let (vb, b3) ← parseTimestamp .network false 8 (bs.drop (q + b1 + b2))
-      let r := q + b1 + b2 + b3
-      let (crit, c1) ← parseVecItems criticalParam (parseOpt Gen.Ssh.certCriticalOptionVariants) optSize (bs.drop r)
-      let (exts, c2) ← parseVecItems extensionParam (parseOpt Gen.Ssh.certExtensionVariants) optSize (bs.drop (r + c1))
-      let (reserved, c3) ← parseBytes .network 4 (bs.drop (r + c1 + c2))
-      let t := r + c1 + c2 + c3
-      let (sigKey, d1) ← parseHostKeyPrefixed (bs.drop t)
-      let ((sigType, sigData), d2) ← parseSignaturePrefixed (bs.drop (t + d1))
-      -- the constructor: `valid_after` must be a datetime (`None` is a `TypeError`)
+      -- the all-ones value means "no limit", which only the end of the validity can be: an
+      -- `InvalidValue` raised right after the field is read (repaired: `None` used to reach the
+      -- constructor, whose validator raised `TypeError` inside parse)
       match va with
-      | none => .error (.crash "TypeError")
+      | none => .error .invalidValue
       | some after =>
+        let (vb, b3) ← parseTimestamp .network false 8 (bs.drop (q + b1 + b2))
+        let r := q + b1 + b2 + b3
+        let (crit, c1) ← parseVecItems criticalParam (parseOpt Gen.Ssh.certCriticalOptionVariants) optSize (bs.drop r)
+        let (exts, c2) ← parseVecItems extensionParam (parseOpt Gen.Ssh.certExtensionVariants) optSize (bs.drop (r + c1))
+        let (reserved, c3) ← parseBytes .network 4 (bs.drop (r + c1 + c2))
+        let t := r + c1 + c2 + c3
+        let (sigKey, d1) ← parseHostKeyPrefixed (bs.drop t)
+        let ((sigType, sigData), d2) ← parseSignaturePrefixed (bs.drop (t + d1))
         pure (⟨⟨cls, algo, params⟩,
           ⟨nonce, serial, ctype, keyId, principals, after, vb, crit, exts, reserved, sigKey, sigType, sigData⟩⟩,
           t + d1 + d2)
